@@ -245,7 +245,9 @@ def run_history(case):
             out.append({"ems": ems, "toks": [int(t) for t in toks], "out": outcome, "timeline": timeline})
         else:
             raise AssertionError(op)
-    return {"ops": out, "doc_names": [d.name for d in DocumentNames], "subs_names": list(SUBS_NAMES)}
+    reg = RE.dispatcher.cb_registry
+    counts = [sum(len(v) for v in reg.callbacks.values()), len(RE.dispatcher._token_mapping)]
+    return {"ops": out, "doc_names": [d.name for d in DocumentNames], "subs_names": list(SUBS_NAMES), "counts": counts}
 
 
 # ----------------------------------------------------------------------------- Coq rendering
